@@ -256,6 +256,43 @@ pub fn run(ctx: &Ctx) -> CheckResult {
         res.absorb(merge_jobs(outs));
     }
 
+    // (a+) periods beyond 2^32 for the indicators that allocate no window of that size: every special-value
+    // sequence up to depth 3 (overflow checks on: "period + 1" style arithmetic)
+    if !res.out.failed() {
+        let mut hp: Vec<Cfg> = vec![];
+        for &n in &[(1usize << 32) + 2, usize::MAX - 1, usize::MAX] {
+            hp.push(Cfg::p1(Kind::Ema, n));
+            hp.push(Cfg::p1(Kind::Atr, n));
+            hp.push(Cfg::p1(Kind::Rsi, n));
+            hp.push(Cfg::pm(Kind::Kc, n, 2.0));
+            hp.push(Cfg::p3(Kind::Macd, n, 5, n));
+            hp.push(Cfg::p3(Kind::Ppo, 3, n, 2));
+            hp.push(Cfg::p2(Kind::SlowStoch, 3, n));
+        }
+        let outs = par_run(ctx, &hp, |_, cfg| {
+            let mut out = JobOut::default();
+            let alpha = special_alphabet(cfg.kind);
+            let mut ops: Vec<Op> = vec![];
+            for_each_seq(alpha.len(), None, 3, |seq| {
+                ops.clear();
+                ops.extend(seq.iter().map(|&a| alpha[a as usize]));
+                out.stats.states += 1;
+                out.stats.traces += 1;
+                out.stats.transitions += ops.len() as u64 + 4;
+                out.stats.evaluations += 1;
+                match run_total(cfg, &ops, None) {
+                    Ok(()) => true,
+                    Err((step, phase)) => {
+                        report(cfg, &ops, step, phase, &mut out, "period beyond 2^32".into());
+                        false
+                    }
+                }
+            });
+            out
+        });
+        res.absorb(merge_jobs(outs));
+    }
+
     // (a'') flat runs around a reset: v^a, reset, v^b, then a move and two more inputs, for every a and b
     // up to 2n+2 (run-length counters and "nothing changed" fast paths that outlive the reset)
     if !res.out.failed() {
